@@ -20,9 +20,15 @@ CHECKS = {
  "C08": ("model_checking",
          "EventQueue.tla (mutex/condition-variable FIFO, N producers, one consumer; exactly once, per-sender FIFO, conservation, no lost wake-up under fairness) is model-checked; real runs with 2-6 producer threads against a blocking or polling stepper are recorded through hooks under the queue's mutex and validated against the model's abstract state (Trace_Queue.tla); the sequential dequeue discipline is validated on every interpreter campaign trace.",
          "5 C08", "TLC model checking (EventQueue) + trace validation of recorded multi-threaded runs (Trace_Queue)"),
+ "C09": ("model_checking",
+         "DelayQueue.tla models timerCallback against cancelDelayed with both mutexes and libevent's blocking event_del(); TLC checks use-after-free, at-most-once, cancel-wins and deadlock freedom for the protocol the code implements and shows that the previous protocol violates them; the counterexample schedule is forced in the real code through the hooks (watchdog), and seeded runs with up to six delayed sends and cancels are validated against the timing contract (Trace_Delay.tla: not early within timer granularity, due order, once, cancel-before-due wins, nothing lost).",
+         "5 C09", "TLC model checking (DelayQueue) + forced-schedule replay + trace validation of timed runs (Trace_Delay)"),
  "C10": ("model_checking",
          "All API words (step* ; up to 2-3 of {step, receive, cancel, reset} ; step*) over six charts are executed against fresh interpreters (instrumented components and the default ones) and every call is validated against ScxmlStep, in which receive/cancel/reset are enabled in every life-cycle state; Teardown.tla (timer thread vs stop()) is model-checked for termination under fairness in both variants, and its counterexample schedule is forced in the real code through the hooks, next to randomly delayed create/step/destroy cycles under a watchdog.",
          "5 C10", "trace validation of enumerated API words (Trace_Step) + TLC liveness checking (Teardown) + forced-schedule replay"),
+ "C11": ("model_checking",
+         "Invoke.tla (stop() vs the child's run loop and the parent-queue gate) is model-checked for done-at-most-once, done-only-after-own-completion, silence after cancel and termination of stop(); 384+ real runs of a parent with an inline invoked child (finishing at once / after three events / never; autoforward; finalize; seeded scripts) are recorded with the monitor copied to the invoked session and validated by Trace_Invoke.tla (start once per macrostep end with the state active, cancel once after exit, done.invoke at most once and only after the child's own completion, no child activity outside the invocation, child events in send order, nothing sent during cancellation reaches the parent, finalize before processing, autoforward/#_id routing).",
+         "5 C11", "TLC model checking (Invoke) + trace validation of recorded parent/child runs (Trace_Invoke)"),
  "C12": ("exploration",
          "TLC enumerates all descriptor lists up to the bound with the verdict of the TLA+ relation NameMatch for every event name up to the bound; the table is replayed through uscxml::nameMatch and the matcher shipped in test-gen-c.cpp. Exhaustive in the bound, seeded random beyond.",
          "5 C12", "TLC-generated oracle table (MC_NameMatch) replayed through the implementation"),
